@@ -682,8 +682,11 @@ def rankOf (role : Nat) : Option Nat → Nat
   | some s => (inputStreams role).idxOf s
 
 /-- `s` is in the role's list, strictly after `cur` (`cur = none` is after everything). -/
-abbrev Later (role : Nat) (cur : Option Nat) (s : Nat) : Prop :=
+def Later (role : Nat) (cur : Option Nat) (s : Nat) : Prop :=
   rankOf role cur < rankOf role (some s) ∧ rankOf role (some s) < rankOf role none
+
+instance (role : Nat) (cur : Option Nat) (s : Nat) : Decidable (Later role cur s) :=
+  inferInstanceAs (Decidable (_ ∧ _))
 
 theorem rankOf_le_none (role : Nat) (cur : Option Nat) : rankOf role cur ≤ rankOf role none := by
   cases cur with
@@ -713,12 +716,13 @@ theorem go_lt (recv e : Nat) (hne : recv ≠ e) (l : List Nat) :
     · by_cases h2 : s = e
       · have hse : ¬ e = recv := fun x => hne x.symm
         subst h2
-        simp only [beq_iff_eq, h, if_false, if_true, BEq.rfl, cond_true, cond_false, go_gt,
+        have hb : (s == recv) = false := by simp [h]
+        simp only [if_true, BEq.rfl, cond_true, go_gt, hb, cond_false,
           ← List.idxOf_lt_length_iff (a := recv)]
-        trace_state
         simp
-      · simp only [beq_iff_eq, h, h2, if_false, cond_false, ih]
-        trace_state
+      · have hb : (s == recv) = false := by simp [h]
+        have hb2 : (s == e) = false := by simp [h2]
+        simp only [ih, hb, hb2, cond_false]
         simp
 
 theorem cmp_none (role recv : Nat) : cmpInputStreams role recv none = some .lt := rfl
@@ -732,7 +736,10 @@ theorem cmp_some (role : Nat) {recv e : Nat} (hr : RT.isInputStream recv = true)
   simp only [hr, he, Bool.not_true, Bool.or_self, Bool.false_eq_true, if_false]
   by_cases h : recv = e
   · simp [h]
-  · simp only [beq_iff_eq, h, if_false, go_lt recv e h, Later, rankOf]
+  · simp only [beq_iff_eq, h, if_false, go_lt recv e h]
+    by_cases hl : Later role (some e) recv
+    · rw [if_pos hl]; exact congrArg some (if_pos hl)
+    · rw [if_neg hl]; exact congrArg some (if_neg hl)
 
 theorem cmp_eq_iff (role : Nat) {recv e : Nat} (hr : RT.isInputStream recv = true)
     (he : RT.isInputStream e = true) :
@@ -769,6 +776,343 @@ theorem cmp_panic_iff (role recv e : Nat) :
     cmpInputStreams role recv (some e) = none ↔
       (RT.isInputStream recv = false ∨ RT.isInputStream e = false) := by
   unfold cmpInputStreams
-  cases h1 : RT.isInputStream recv <;> cases h2 : RT.isInputStream e <;> simp <;> split <;> simp
+  cases h1 : RT.isInputStream recv <;> cases h2 : RT.isInputStream e <;> simp <;> split <;> simp <;> assumption
+
+/-! ## The other operations keep the invariant -/
+
+theorem SInv_consumeStream {p : Parser} (h : SInv p) (amt : Nat) : SInv (p.consumeStream amt) := by
+  obtain ⟨h1, h2, h3, h4, h5, h6⟩ := h
+  refine ⟨?_, h2, h3, h4, h5, h6⟩
+  simp [Parser.consumeStream, Parser.freeStart] at *; omega
+
+theorem SInv_compress {p : Parser} (h : SInv p) : SInv p.compress := by
+  obtain ⟨h1, h2, h3, h4, h5, h6⟩ := h
+  refine ⟨?_, h2, h3, h4, h5, h6⟩
+  simp [Parser.compress, Parser.freeStart] at *; omega
+
+theorem SInv_consumeOutput {p : Parser} (h : SInv p) (amt : Nat) : SInv (p.consumeOutput amt) := h
+
+theorem SInv_discardStream {p : Parser} (h : SInv p) : SInv p.discardStream := by
+  obtain ⟨h1, h2, h3, h4, h5, h6⟩ := h
+  refine ⟨?_, h2, h3, h4, h5, h6⟩
+  simp [Parser.discardStream, Parser.freeStart] at *; omega
+
+theorem consumeStream_parsed (p : Parser) (amt : Nat) :
+    (p.consumeStream amt).parsed = p.parsed.drop amt := by
+  simp only [Parser.consumeStream]
+  by_cases h : amt ≤ p.parsed.length
+  · rw [Nat.min_eq_left h]
+  · rw [Nat.min_eq_right (by omega), List.drop_length, List.drop_eq_nil_of_le (by omega)]
+
+/-! ## `setStream` -/
+
+/-- The parser `set_stream` leaves behind when the active stream actually changes. -/
+def Parser.switchTo (p : Parser) (s : Option Nat) : Parser :=
+  { p.discardStream with state := if p.state == .stream then SState.skip else p.state, stream := s }
+
+theorem setStream_none (p : Parser) :
+    p.setStream none = .ok (if p.stream = none then p else p.switchTo none) := by
+  unfold Parser.setStream Parser.switchTo
+  cases h : p.stream <;> simp
+
+/-- `set_stream(Some(s))` for an input-stream type `s`, the active stream being `None` or an
+input-stream type: accepted iff `s` is the active stream or comes strictly later in the role's
+order; otherwise `Err(SequenceError)`.  Never a panic. -/
+theorem setStream_some_input (p : Parser) {s : Nat} (hs : RT.isInputStream s = true)
+    (hcur : ∀ e, p.stream = some e → RT.isInputStream e = true) :
+    p.setStream (some s) =
+      if p.stream = some s then .ok p
+      else if Later p.request.role p.stream s then .ok (p.switchTo (some s))
+      else .rejected := by
+  unfold Parser.setStream
+  cases hst : p.stream with
+  | none =>
+    have hl : ¬ Later p.request.role none s := by unfold Later; omega
+    simp [cmp_none, hl]
+  | some e =>
+    have he := hcur e hst
+    simp only [cmp_some p.request.role hs he]
+    by_cases h : s = e
+    · subst h; simp
+    · have h' : ¬ e = s := fun x => h x.symm
+      simp only [h, if_false, Option.some.injEq, h']
+      by_cases hl : Later p.request.role (some e) s
+      · simp [hl, h, Parser.switchTo]
+      · simp [hl]
+
+/-- A non-input-stream type trips the debug assertion unless the active stream is `None`. -/
+theorem setStream_some_nonInput (p : Parser) {s : Nat} (hs : RT.isInputStream s = false) :
+    p.setStream (some s) =
+      if p.stream = none then .rejected
+      else .panic "stream.rs:66 debug_assert input stream type" := by
+  unfold Parser.setStream
+  cases hst : p.stream with
+  | none => simp [cmp_none]
+  | some e =>
+    have : cmpInputStreams p.request.role s (some e) = none :=
+      (cmp_panic_iff _ _ _).2 (Or.inl hs)
+    simp [this]
+
+/-- Every way `set_stream` can succeed. -/
+theorem setStream_ok_cases {p p' : Parser} {st : Option Nat} (h : p.setStream st = .ok p') :
+    (st = p.stream ∧ p' = p) ∨
+    (st ≠ p.stream ∧ p' = p.switchTo st ∧
+      (st = none ∨ ∃ s, st = some s ∧ Later p.request.role p.stream s)) := by
+  cases st with
+  | none =>
+    rw [setStream_none] at h
+    split at h
+    · rename_i hn; cases h; exact Or.inl ⟨hn.symm, rfl⟩
+    · rename_i hn; cases h; exact Or.inr ⟨fun x => hn x.symm, rfl, Or.inl rfl⟩
+  | some s =>
+    cases hs : RT.isInputStream s with
+    | false =>
+      rw [setStream_some_nonInput p hs] at h
+      split at h <;> cases h
+    | true =>
+      by_cases hcur : ∀ e, p.stream = some e → RT.isInputStream e = true
+      · rw [setStream_some_input p hs hcur] at h
+        split at h
+        · rename_i he; cases h; exact Or.inl ⟨he.symm, rfl⟩
+        · rename_i he
+          split at h
+          · rename_i hl; cases h
+            exact Or.inr ⟨fun x => he x.symm, rfl, Or.inr ⟨s, rfl, hl⟩⟩
+          · cases h
+      · exfalso
+        have hcur' : ∃ e, p.stream = some e ∧ RT.isInputStream e = false := by
+          apply Classical.byContradiction
+          intro hno
+          apply hcur
+          intro e he
+          cases hie : RT.isInputStream e with
+          | true => rfl
+          | false => exact absurd ⟨e, he, hie⟩ hno
+        obtain ⟨e, he, hne⟩ := hcur'
+        have : cmpInputStreams p.request.role s (some e) = none :=
+          (cmp_panic_iff _ _ _).2 (Or.inr (by simpa using hne))
+        unfold Parser.setStream at h
+        simp [he, this] at h
+
+theorem mem_of_Later {role : Nat} {cur : Option Nat} {s : Nat} (h : Later role cur s) :
+    s ∈ inputStreams role := List.idxOf_lt_length_iff.1 h.2
+
+theorem SInv_switchTo {p : Parser} (h : SInv p) {st : Option Nat}
+    (hst : st = none ∨ ∃ s, st = some s ∧ s ∈ inputStreams p.request.role) :
+    SInv (p.switchTo st) := by
+  obtain ⟨h1, h2, h3, h4, h5, h6⟩ := h
+  refine ⟨?_, h2, h3, ?_, hst, h6⟩
+  · simp [Parser.switchTo, Parser.discardStream, Parser.freeStart] at *; omega
+  · simp only [Parser.switchTo]
+    cases hs : p.state with
+    | stream => simp
+    | skip => simp
+    | values v => rw [hs] at h4; simpa using h4
+
+theorem SInv_setStream {p p' : Parser} {st : Option Nat} (hinv : SInv p)
+    (h : p.setStream st = .ok p') : SInv p' := by
+  rcases setStream_ok_cases h with ⟨-, rfl⟩ | ⟨-, rfl, hc⟩
+  · exact hinv
+  · refine SInv_switchTo hinv ?_
+    rcases hc with hc | ⟨s, hs, hl⟩
+    · exact Or.inl hc
+    · exact Or.inr ⟨s, hs, mem_of_Later hl⟩
+
+/-! ## Held-back headers (end of the active stream) -/
+
+/-- The header at the front of `raw` is one `parseHead` refuses to consume: it belongs to this
+request and is either an empty record of the active stream or a record of a later stream. -/
+def HeldBack (p : Parser) : Prop :=
+  ∃ b0 b1 b2 b3 b4 b5 b6 b7 rest head,
+    p.raw = b0 :: b1 :: b2 :: b3 :: b4 :: b5 :: b6 :: b7 :: rest ∧
+    RecordHeader.fromBytes [b0, b1, b2, b3, b4, b5, b6, b7] = some (.ok head) ∧
+    RT.isInputStream head.rtype = true ∧ head.requestId = p.request.id ∧
+    ((cmpInputStreams p.request.role head.rtype p.stream = some .eq ∧ head.contentLength = 0) ∨
+      cmpInputStreams p.request.role head.rtype p.stream = some .gt)
+
+theorem parseHead_held {p : Parser} (h : HeldBack p) (d : Option Nat) (r : Status) :
+    parseHead p d r = .stop p { r with streamEnd := true } := by
+  obtain ⟨b0, b1, b2, b3, b4, b5, b6, b7, rest, head, hraw, hh, hin, hid, hc⟩ := h
+  have hcond : (RT.isInputStream head.rtype && head.requestId == p.request.id) = true := by
+    simp [hin, hid]
+  simp only [parseHead, hraw, hh, hcond, if_true]
+  rcases hc with ⟨hc, hz⟩ | hc
+  · simp [hc, hz]
+  · simp [hc]
+
+theorem parseHead_stop_se {p p' : Parser} {dest : Option Nat} {res res' : Status}
+    (h : parseHead p dest res = .stop p' res') (h1 : res'.streamEnd = true)
+    (h0 : res.streamEnd = false) :
+    p' = p ∧ res' = { res with streamEnd := true } ∧ HeldBack p := by
+  unfold parseHead at h
+  split at h
+  · rename_i b0 b1 b2 b3 b4 b5 b6 b7 rest hraw
+    split at h
+    · cases h
+    · cases h
+    · rename_i head hh
+      by_cases hin : (RT.isInputStream head.rtype && head.requestId == p.request.id) = true
+      · rw [if_pos hin] at h
+        simp only [Bool.and_eq_true, beq_iff_eq] at hin
+        split at h
+        · cases h
+        · rename_i hc
+          split at h
+          · cases h
+          · rename_i hz
+            cases h
+            refine ⟨rfl, rfl, b0, b1, b2, b3, b4, b5, b6, b7, rest, head, hraw, hh, hin.1, hin.2,
+              Or.inl ⟨hc, ?_⟩⟩
+            simpa using hz
+        · cases h
+        · rename_i hc
+          cases h
+          exact ⟨rfl, rfl, b0, b1, b2, b3, b4, b5, b6, b7, rest, head, hraw, hh, hin.1, hin.2,
+            Or.inr hc⟩
+      · rw [if_neg hin] at h
+        split at h
+        · cases h
+        · split at h
+          · cases h
+          · split at h <;> cases h
+    · cases h
+  · cases h
+    rw [h0] at h1; cases h1
+
+/-- In terms of positions: the active stream is some `e`, and the held-back header is an empty
+record of `e` or a record of a stream strictly later in the role's order. -/
+theorem HeldBack.stream {p : Parser} (hinv : SInv p) (h : HeldBack p) :
+    ∃ b0 b1 b2 b3 b4 b5 b6 b7 rest head e,
+      p.raw = b0 :: b1 :: b2 :: b3 :: b4 :: b5 :: b6 :: b7 :: rest ∧
+      RecordHeader.fromBytes [b0, b1, b2, b3, b4, b5, b6, b7] = some (.ok head) ∧
+      head.requestId = p.request.id ∧ p.stream = some e ∧
+      ((head.rtype = e ∧ head.contentLength = 0) ∨ Later p.request.role (some e) head.rtype) := by
+  obtain ⟨b0, b1, b2, b3, b4, b5, b6, b7, rest, head, hraw, hh, hin, hid, hc⟩ := h
+  obtain ⟨-, -, -, -, hs, -⟩ := hinv
+  rcases hs with hs | ⟨e, hs, hm⟩
+  · rw [hs, cmp_none] at hc
+    rcases hc with ⟨hc, -⟩ | hc <;> cases hc
+  · refine ⟨b0, b1, b2, b3, b4, b5, b6, b7, rest, head, e, hraw, hh, hid, hs, ?_⟩
+    rw [hs] at hc
+    have he := mem_inputStreams_isInput hm
+    rcases hc with ⟨hc, hz⟩ | hc
+    · exact Or.inl ⟨(cmp_eq_iff _ hin he).1 hc, hz⟩
+    · exact Or.inr ((cmp_gt_iff _ hin he).1 hc)
+
+/-- At a record boundary with a held-back header, a `parse` call without new input reports
+`stream_end` again, delivers nothing and leaves the parser untouched. -/
+theorem held_repeat {p : Parser} (hb : p.isRecordBoundary = true) (h : HeldBack p)
+    (dest : Option Nat) (hcap : p.freeStart ≤ p.cap) (hd : dest = none ∨ p.parsed = []) :
+    p.parse [] dest = (p, .ok { stream := 0, streamEnd := true, output := 0, delivered := [] }) := by
+  rw [parse_eq_loop p [] dest hcap hd (by simp), Parser.feed_nil, loop]
+  have hne : p.raw.isEmpty = false := by
+    obtain ⟨b0, b1, b2, b3, b4, b5, b6, b7, rest, head, hraw, -⟩ := h
+    rw [hraw]; rfl
+  simp only [Parser.isRecordBoundary, Bool.and_eq_true, beq_iff_eq] at hb
+  have hit : iter p dest (initStatus p) = .stop p { initStatus p with streamEnd := true } := by
+    unfold iter
+    have h1 : ¬ p.pay > 0 := by omega
+    have h2 : ¬ p.pad > 0 := by omega
+    simp only [if_neg h1, if_neg h2]
+    exact parseHead_held h _ _
+  simp only [hne, hit]
+  rfl
+
+/-! ## Traces of caller operations -/
+
+/-- The caller-visible operations of `stream::Parser`. -/
+inductive Op
+  | parse (new : Bytes) (dest : Option Nat)
+  | consumeStream (amt : Nat)
+  | compress
+  | consumeOutput (amt : Nat)
+  | setStream (s : Option Nat)
+deriving Repr, DecidableEq
+
+/-- The parser after one operation (`set_stream` returning `Err` leaves it unchanged). -/
+def applyOp (p : Parser) : Op → Parser
+  | .parse new dest => (p.parse new dest).1
+  | .consumeStream amt => p.consumeStream amt
+  | .compress => p.compress
+  | .consumeOutput amt => p.consumeOutput amt
+  | .setStream s => match p.setStream s with | .ok p' => p' | _ => p
+
+def applyOps (p : Parser) (ops : List Op) : Parser := ops.foldl applyOp p
+
+@[simp] theorem applyOps_nil (p : Parser) : applyOps p [] = p := rfl
+@[simp] theorem applyOps_cons (p : Parser) (op : Op) (t : List Op) :
+    applyOps p (op :: t) = applyOps (applyOp p op) t := rfl
+
+/-- The documented preconditions of each call. -/
+def Legal (p : Parser) : Op → Prop
+  | .parse new dest => (dest = none ∨ p.parsed = []) ∧ new.length ≤ p.free
+  | .setStream (some s) => RT.isInputStream s = true
+  | _ => True
+
+/-- The operation panics (an assertion of the Rust code, or of the model's loop guard, fires). -/
+def Panics (p : Parser) : Op → Prop
+  | .parse new dest => ∃ s, (p.parse new dest).2 = .panic s
+  | .setStream st => ∃ s, p.setStream st = .panic s
+  | _ => False
+
+/-- Every call of the trace is legal in the state it is made in. -/
+def LegalAll : Parser → List Op → Prop
+  | _, [] => True
+  | p, op :: t => Legal p op ∧ LegalAll (applyOp p op) t
+
+/-- Some call of the trace panics. -/
+def PanicsAny : Parser → List Op → Prop
+  | _, [] => False
+  | p, op :: t => Panics p op ∨ PanicsAny (applyOp p op) t
+
+theorem step_safe {p : Parser} (hinv : SInv p) {op : Op} (hl : Legal p op) :
+    SInv (applyOp p op) ∧ ¬ Panics p op := by
+  cases op with
+  | parse new dest =>
+    obtain ⟨hd, hfree⟩ := hl
+    have hg := parse_good p new dest hinv.1 hd hfree
+    have hf := SInv_feed hinv hfree
+    simp only [applyOp, Panics]
+    revert hg
+    generalize p.parse new dest = out
+    obtain ⟨p', pr⟩ := out
+    cases pr with
+    | ok st => exact fun hg => ⟨hg.2 hf, by simp⟩
+    | err e => exact fun hg => ⟨hg.2.1 hf, by simp⟩
+    | panic s => exact fun hg => absurd hf hg.2
+  | consumeStream amt => exact ⟨SInv_consumeStream hinv amt, id⟩
+  | compress => exact ⟨SInv_compress hinv, id⟩
+  | consumeOutput amt => exact ⟨SInv_consumeOutput hinv amt, id⟩
+  | setStream st =>
+    simp only [applyOp, Panics]
+    cases hr : p.setStream st with
+    | ok p' => exact ⟨SInv_setStream hinv hr, by simp⟩
+    | rejected => exact ⟨hinv, by simp⟩
+    | panic s =>
+      exfalso
+      cases st with
+      | none => rw [setStream_none] at hr; cases hr
+      | some s' =>
+        have hcur : ∀ e, p.stream = some e → RT.isInputStream e = true := by
+          intro e he
+          obtain ⟨-, -, -, -, hs, -⟩ := hinv
+          rcases hs with hs | ⟨x, hs, hm⟩
+          · rw [hs] at he; cases he
+          · rw [hs] at he; cases he; exact mem_inputStreams_isInput hm
+        rw [setStream_some_input p hl hcur] at hr
+        split at hr
+        · cases hr
+        · split at hr <;> cases hr
+
+/-- From a state satisfying the invariant, no legal trace panics, and the invariant is kept. -/
+theorem trace_safe {p : Parser} (hinv : SInv p) {ops : List Op} (hl : LegalAll p ops) :
+    SInv (applyOps p ops) ∧ ¬ PanicsAny p ops := by
+  induction ops generalizing p with
+  | nil => exact ⟨hinv, id⟩
+  | cons op t ih =>
+    obtain ⟨h1, h2⟩ := hl
+    obtain ⟨hs, hp⟩ := step_safe hinv h1
+    obtain ⟨hs', hp'⟩ := ih hs h2
+    exact ⟨hs', fun h => h.elim hp hp'⟩
 
 end Fcgi.Str
